@@ -63,7 +63,7 @@ class IC10Register:
                 return self._lifetime
 
             for node in self.nodes_writing:
-                if node.scope().name == "":
+                if isinstance(node.scope(), nodes.Module):
                     self._lifetime = range(0, sys.maxsize)
                     break
 
